@@ -346,7 +346,7 @@ def shards(tier, seed):
     n_h = 6 if tier == 'quick' else 16
     for k in range(n_h):
         out.append(dict(kind='hyp', seed=seed * 1000 + k,
-                        n=1200 if tier == 'quick' else 20000))
+                        n=1200 if tier == 'quick' else 100000))
     out.append(dict(kind='purity'))
     return out
 
